@@ -298,7 +298,10 @@ class Request(Message):
             if idx < 0 and not done:
                 self.get_data(unreader, buf)
                 data = buf.getvalue()
-                if len(data) > self.max_buffer_headers:
+                # the cap is on the header block, not on the body or
+                # pipelined bytes that were read along with its end
+                end = 0 if data[:2] == b"\r\n" else data.find(b"\r\n\r\n")
+                if (end if end >= 0 else len(data) - 3) > self.max_buffer_headers:
                     raise LimitRequestHeaders("max buffer headers")
             else:
                 break
